@@ -350,7 +350,9 @@ func (s *v4Server) addLease(l *dhcpsvc.Lease) (err error) {
 	s.ipIndex[l.IP] = l
 
 	s.leases = append(s.leases, l)
-	s.leasedOffsets.set(offset, true)
+	if inOffset {
+		s.leasedOffsets.set(offset, true)
+	}
 
 	return nil
 }
